@@ -19,8 +19,11 @@ def construct_range(prog, i):
     return i, prog.match_end[i]
 
 
-def build_hooks(prog, plan):
-    """hooks for the non-rewriting modes of `plan` on the (already rewritten, if needed) body `prog`"""
+def build_hooks(prog, plan, tolerate_function_label=False):
+    """hooks for the non-rewriting modes of `plan` on the (already rewritten, if needed) body `prog`.
+    tolerate_function_label: the reading under which the known finding semantic-after-branch-to-function-label-lost
+    is NOT counted - a semantic-after probe on a branch is not demanded when that branch is taken to the function
+    label (used to tell the known finding from anything else going wrong in the same role)."""
     h = Hooks()
     n = prog.n
     for p in plan:
@@ -67,7 +70,10 @@ def build_hooks(prog, plan):
                 h.post.append((lambda pc, tag, nxt, extra, lo=lo, hi=hi: lo <= pc <= hi and nxt == hi + 1 and tag != "trap", m))
             elif k in BRANCHES:
                 # exactly once per execution of the branch, whatever the outcome
-                h.post.append((lambda pc, tag, nxt, extra, i=i: pc == i and tag in ("taken", "seq"), m))
+                if tolerate_function_label:
+                    h.post.append((lambda pc, tag, nxt, extra, i=i: pc == i and (tag == "seq" or (tag == "taken" and nxt != n)), m))
+                else:
+                    h.post.append((lambda pc, tag, nxt, extra, i=i: pc == i and tag in ("taken", "seq"), m))
     return h
 
 
